@@ -13,14 +13,17 @@ import subprocess
 import sys
 import warnings
 
+import copy
+
 import numpy as np
 
 from harness.snap import snapshot
 
 SCRIPT_A = ["construct", "fit", "predict", "add_arm", "warm_start", "predict_expectations", "partial_fit", "predict"]
-SCRIPT_B = ["construct", "global_draw", "fit", "global_seed", "predict"]
+SCRIPT_B = ["construct", "global_draw", "partial_fit", "fit", "global_seed", "predict"]
 
-LPS = ["eg", "ucb1", "softmax", "pop", "ts", "random", "lin-ucb", "lin-ts", "lin-greedy", "default-eg", "default-ts"]
+LPS = ["eg", "ucb1", "softmax", "pop", "ts", "random", "lin-ucb", "lin-ts", "lin-greedy", "default-eg", "default-ts",
+       "lin-ts-tiny"]      # l2_lambda 1e-14 with two identical feature columns: a numerically singular covariance
 NPS = [None, "radius", "knearest", "lsh", "clusters", "tree", "default-tree", "default-lsh", "default-clusters"]
 
 
@@ -34,7 +37,7 @@ def policies(lp, np_):
     from mabwiser.mab import LearningPolicy as LP, NeighborhoodPolicy as NP
     lpo = {"eg": LP.EpsilonGreedy(0.3), "ucb1": LP.UCB1(1.25), "softmax": LP.Softmax(2), "pop": LP.Popularity(),
            "ts": LP.ThompsonSampling(), "random": LP.Random(), "lin-ucb": LP.LinUCB(1.25, 0.5), "lin-ts": LP.LinTS(0.5, 2.0),
-           "lin-greedy": LP.LinGreedy(0.3, 1.0), "default-eg": LP.EpsilonGreedy(), "default-ts": LP.ThompsonSampling()}[lp]
+           "lin-greedy": LP.LinGreedy(0.3, 1.0), "lin-ts-tiny": LP.LinTS(0.5, 1e-14), "default-eg": LP.EpsilonGreedy(), "default-ts": LP.ThompsonSampling()}[lp]
     npo = {None: None, "radius": NP.Radius(2.0, "cityblock"), "knearest": NP.KNearest(2), "lsh": NP.LSHNearest(2, 2),
            "clusters": NP.Clusters(2), "tree": NP.TreeBandit({"max_depth": 2}), "default-tree": NP.TreeBandit(),
            "default-lsh": NP.LSHNearest(), "default-clusters": NP.Clusters()}[np_]
@@ -52,6 +55,8 @@ def data(lp, strings):
     r = [float(rnd.choice([0, 1])) if binary else float(rnd.choice([0, 1, 2, 3])) for _ in range(n)]
     col = [float(rnd.randrange(4)) for _ in range(n)]
     c = [[v, v, float(rnd.randrange(3))] for v in col]
+    if lp == "lin-ts-tiny":       # fractional values: the covariance alpha^2 A^-1 is then not numerically positive definite
+        c = [[v + 0.1 * (i % 7), v + 0.1 * (i % 7), x + 0.3 * (i % 3)] for i, (v, _, x) in enumerate(c)]
     q = [[0.0, 3.0, 1.0], [3.0, 0.0, 2.0], [1.0, 2.0, 0.0], [2.0, 2.0, 1.0]]
     extra = "k" if strings else 7
     feats = {arms[0]: [3.0, 4.0], arms[1]: [3.0, 4.0], arms[2]: [-4.0, 3.0], extra: [4.0, 3.0]}
@@ -66,6 +71,12 @@ class Actor:
         self.contextual = np_ is not None or lp.startswith("lin-")
 
     def step(self, op):
+        try:
+            self._step(op)
+        except Exception as error:  # noqa: an exception is an outcome like any other; it must not depend on the interferer
+            self.out.append(("raised", op, type(error).__name__))
+
+    def _step(self, op):
         from mabwiser.mab import MAB
         arms, extra, d, r, c, q, feats = data(self.lp, self.strings)
         o = self.offset
@@ -109,7 +120,7 @@ def run_schedule(lp, np_, sched, strings, b_kind):
     np.random.seed(4242)
     pyrandom.seed(4242)
     a = Actor(lp, np_, 0 if strings else 7, strings)      # 0 is a legal seed like any other
-    blp, bnp = (lp, np_) if b_kind == "same" else ("ucb1", "default-tree" if np_ != "default-tree" else "tree")
+    blp, bnp = (lp, np_) if b_kind in ("same", "clone") else ("ucb1", "default-tree" if np_ != "default-tree" else "tree")
     b = Actor(blp, bnp, 8, strings, offset=3)
     ia = ib = 0
     for who in sched:
@@ -117,7 +128,10 @@ def run_schedule(lp, np_, sched, strings, b_kind):
             a.step(SCRIPT_A[ia])
             ia += 1
         else:
-            b.step(SCRIPT_B[ib])
+            if b_kind == "clone" and SCRIPT_B[ib] == "construct" and a.mab is not None:
+                b.mab = copy.deepcopy(a.mab)          # the other instance is a deep copy of the observed one, taken right now
+            else:
+                b.step(SCRIPT_B[ib])
             ib += 1
     return a.digest(), a.out
 
@@ -131,7 +145,8 @@ def combos(tier, seed):
     if tier == "thorough":
         return allc
     pick = [c for i, c in enumerate(allc) if (i + seed) % 4 == 0]
-    must = [("eg", "default-tree"), ("ts", "tree"), ("ucb1", "tree"), ("ucb1", None), ("lin-ts", None), ("softmax", "default-lsh")]
+    must = [("eg", "default-tree"), ("ts", "tree"), ("ucb1", "tree"), ("ucb1", None), ("lin-ts", None), ("softmax", "default-lsh"),
+            ("lin-ts-tiny", None)]
     return pick + [c for c in must if c not in pick]
 
 
@@ -140,13 +155,13 @@ def in_process(schedules, tier, seed, findings, counters):
         for strings in (False, True):
             ref, ref_out = solo(lp, np_, strings)
             for k, sched in enumerate(schedules):
-                for b_kind in (("same", "other") if tier == "thorough" else (("same", "other")[(k + seed) % 2],)):
+                for b_kind in (("same", "other", "clone") if tier == "thorough" else (("same", "other", "clone")[(k + seed) % 3],)):
                     got, out = run_schedule(lp, np_, sched, strings, b_kind)
                     counters["schedules"] = counters.get("schedules", 0) + 1
                     if got != ref:
                         first = next((i for i, (x, y) in enumerate(zip(out, ref_out)) if repr(snapshot(x)) != repr(snapshot(y))), None)
                         findings.append({"clause": "isolation.in_process", "op": "schedule", "engine": "multi",
-                                         "detail": "lp=%s np=%s string arms=%s: interleaving %s with an interferer (%s policy, seed 8, "
+                                         "detail": "lp=%s np=%s string arms=%s: interleaving %s with an interferer (%s, seed 8, "
                                                    "global generator draws) changes output #%s of the observed bandit: %s instead of %s"
                                                    % (lp, np_, strings, "".join(sched), b_kind, first,
                                                       repr(out[first])[:300] if first is not None else "?",
